@@ -53,6 +53,9 @@ pub use crate::merkle_proof::MerkleProof;
 pub use crate::share::*;
 pub use crate::sync::*;
 pub use crate::validate::*;
+// verification-harness hook: `ValidatorSetExt` lives in a private module; expose it only under the cfg
+#[cfg(eigerco_lumina_verif)]
+pub use crate::validator_set::ValidatorSetExt;
 
 // `uniffi::use_remote_type` macro seems a bit limited in that it works correctly only
 // for types that are exported in the root of the crate
